@@ -258,6 +258,31 @@ def canary(sim):
     return fresh, old
 
 
+def same_session_canary(sim):
+    """`the next operation with memory available succeeds`, on the very session that suffered
+    the failure: one more Confirmable request on client session 0 of node 0, when that session
+    exists, talks UDP to the server node and the server's resource "r" is there.  (A failed
+    send must not leave anything behind that keeps the next message from going out.)
+    Returns None when not applicable."""
+    ok = any(e["e"] == "sess" and e.get("n") == 0 and e.get("sid") == 0 and e.get("ok") and
+             e.get("remote") == SERVER for e in sim.log)
+    bound = any(e["e"] == "bound" and e.get("addr") == SERVER and not e.get("tcp")
+                for e in sim.log)
+    if not ok or not bound or any(e["e"] == "tcp_connect" for e in sim.log):
+        return None
+    mark = len(sim.log)
+    evs = sim.cmd("send 0 0 type=0 code=1 token=cc opts=11=72")
+    if any(e["e"] == "error" for e in evs):
+        return None
+    # (it may have to wait for an earlier Confirmable of the scenario to be given up first:
+    # up to ~93 s, then its own exchange)
+    sim.run(until=sim.elapsed() + 400000, quiesce=False)
+    # any response or an explicit NACK concludes it; silence means it never left / got lost in
+    # the library
+    return any(e["e"] in ("rsp", "nack") and e.get("n") == 0 and e.get("tok") == "cc"
+               for e in sim.log[mark:])
+
+
 def run_one(exe, name, k, k2=0):
     w = world.World(exe, seed=3)
     sim = world.Sim(w, latency=2)
@@ -266,12 +291,15 @@ def run_one(exe, name, k, k2=0):
         if k:
             sim.cmd("failalloc %d%s" % (k, " %d" % k2 if k2 else ""))
         SCENARIOS[name](sim)
+        sim.cmd("failalloc 0")
+        same = same_session_canary(sim)
         fresh, old = canary(sim)
         for e in sim.log:
             if e["e"] == "allocfail":
                 site = e["site"]
         evs, rc, err = w.close()
-        return {"site": site, "fresh": fresh, "old": old, "rc": rc, "err": err, "evs": evs,
+        return {"site": site, "fresh": fresh, "old": old, "same": same, "rc": rc, "err": err,
+                "evs": evs,
                 "allocs": [e for e in evs if e.get("e") == "shadow"], "crash": None,
                 "script": w.script}
     except world.WorldCrash as e:
@@ -336,6 +364,11 @@ def work(job):
         if not res["fresh"]:
             run.violation("canary-failed/%s/%s" % (name, site), witness,
                           "a fresh exchange after the failure did not get its response")
+        elif res.get("same") is False:
+            run.violation("session-stuck-after-failure/%s/%s" % (name, site), witness,
+                          "with memory available again, the next Confirmable request on the "
+                          "client session that suffered the failure drew neither a response "
+                          "nor a NACK in 400 s")
         elif res["old"] is False:
             run.violation("endpoint-dead-after-failure/%s/%s" % (name, site), witness,
                           "the server endpoint that was running during the failure no longer "
